@@ -46,17 +46,21 @@ func P7BlockEnc(encrypter cipher.BlockMode, in io.Reader, out io.Writer) error {
 	bufOut := make([]byte, 1024)
 	p7In := NewPKCS7PaddingReader(in, encrypter.BlockSize())
 	for {
-		n, err := p7In.Read(bufIn)
-		if err != nil && err != io.EOF {
+		// the padding reader may return fewer bytes than asked for, or none, when the
+		// source does (a zero-byte read is not the end of the stream): collect whole blocks
+		n, err := io.ReadFull(p7In, bufIn)
+		if err != nil && err != io.EOF && err != io.ErrUnexpectedEOF {
 			return err
 		}
-		if n == 0 {
-			break
+		if n > 0 {
+			encrypter.CryptBlocks(bufOut, bufIn[:n])
+			if _, werr := out.Write(bufOut[:n]); werr != nil {
+				return werr
+			}
 		}
-		encrypter.CryptBlocks(bufOut, bufIn[:n])
-		_, err = out.Write(bufOut[:n])
 		if err != nil {
-			return err
+			// io.EOF or io.ErrUnexpectedEOF: source and padding are exhausted
+			break
 		}
 	}
 	return nil
